@@ -324,6 +324,31 @@ def k6_single_constructor(F, S):
                     n += 1
                     S.bad("K6", "second-constructor", "%s:%s" % (f.label, short(rv["path"])), "%s builds a %s itself: every indicator value must come from its validated `new` (or from Clone / Default / deserialisation of one that did)"
                           % (f.label, short(rv["path"])), loc(st["span"]))
+    # ... and no other hand-written function hands out an indicator: `impl From<usize> for Sma { Self::new(p).unwrap_or_default() }`
+    # is a constructor that accepts 0 without assembling anything itself
+    for f in F.fns:
+        if f.derived or f.kind == "Closure" or f.is_ctor:
+            continue
+        if f.name == "default" and f.trait_short == "Default":
+            continue
+        if f.path in F.helpers() and F.only_from_constructors(f.path):
+            continue
+        rt = f.locals[0]["ty"] if f.locals else {}
+
+        def mentions_ind(ty_):
+            if not isinstance(ty_, dict):
+                return None
+            if ty_.get("k") == "adt" and ty_.get("krate") == F.d["crate"] and short(ty_.get("path", "")) in inds:
+                return short(ty_["path"])
+            for x_ in (ty_.get("args") or []) + (ty_.get("elems") or []):
+                r_ = mentions_ind(x_)
+                if r_:
+                    return r_
+            return None   # (references to an indicator are not new values)
+        who = mentions_ind(rt)
+        if who:
+            n += 1
+            S.bad("K6", "second-constructor", "%s:%s" % (f.label, who), "%s returns a %s: besides `new`, `Default`, `Clone` and deserialisation nothing may hand out indicator values (its validation of the period is not K1's subject)" % (f.label, who), loc(f.span))
     if not n:
         S.ok("K6", "indicator values are built only in their `new`", indicators=len(inds))
 
